@@ -152,6 +152,13 @@ async fn run_async(run: usize, shards: usize, gen: &mut Gen, len: usize, two_key
         if ticked {
             let _ = st.evict_expired_all_shards().await;
         }
+        // right after a tick, more often than not, a plain GET (on whichever path) of some key: the tick has told every shard the time
+        let (c, argv) = if ticked && !want_two && gen.rng.gen_bool(0.6) {
+            let k = gen.keys[gen.rng.gen_range(0..gen.keys.len())].clone();
+            (json!({"op": "GET", "k": k}), vec![b("GET"), k.clone().into_bytes()])
+        } else {
+            (c, argv)
+        };
         let (r, path) = exec_mixed(&st, &c, &argv, &mut gen.rng).await;
         let ro = parse_argv(&argv).map(|cmd| cmd.is_read_only()).unwrap_or(false);
         let s = project(&st, now).await;
@@ -185,6 +192,12 @@ async fn run_twin(run: usize, shards: usize, gen: &mut Gen, len: usize, log: &mu
         }
     }
     let mut steps = 0;
+    // a third of the runs turn a server setting first and then lean on the commands it governs (string growth on every key)
+    let settings = run % 3 == 0;
+    let mut forced: Vec<Argv> = Vec::new();
+    if settings {
+        forced.push(vec![b("CONFIG"), b("SET"), b("proto-max-bulk-len"), b(["16", "64", "20"][run / 3 % 3])]);
+    }
     while steps < len {
         match gen.rng.gen_range(0..10) {
             0..=5 => {}
@@ -192,7 +205,17 @@ async fn run_twin(run: usize, shards: usize, gen: &mut Gen, len: usize, log: &mu
             7 => now += 1,
             _ => now += 100_000,
         }
-        let (_, argv) = if gen.rng.gen_range(0..10) < 4 { gen.other_command() } else { gen.command() };
+        let (_, argv) = if let Some(a) = forced.pop() {
+            (json!({}), a)
+        } else if settings && gen.rng.gen_range(0..3) == 0 {
+            let k = gen.keys[gen.rng.gen_range(0..gen.keys.len())].clone().into_bytes();
+            (json!({}), match gen.rng.gen_range(0..4) {
+                0 => vec![b("APPEND"), k, b("0123456789abcdefghij")],
+                1 => vec![b("SETRANGE"), k, b(["10", "30", "70"][gen.rng.gen_range(0..3)]), b("xyz")],
+                2 => vec![b("APPEND"), k, b("01234567")],
+                _ => vec![b("STRLEN"), k],
+            })
+        } else if gen.rng.gen_range(0..10) < 4 { gen.other_command() } else { gen.command() };
         let name = String::from_utf8_lossy(&argv[0]).to_uppercase();
         let numkeys_two = name == "EVAL" && argv.get(2).map(|n| n.as_slice() != b"0" && n.as_slice() != b"1").unwrap_or(false);
         let sort_store = name == "SORT" && argv.iter().any(|a| a.eq_ignore_ascii_case(b"STORE"));
